@@ -1,6 +1,7 @@
 import GA.Drv.Iterq
 import GA.Drv.LayoutE
 import GA.Drv.OwnE
+import GA.Drv.SeqE
 open GA.Drv
 
 def answerLine (line : String) : String :=
@@ -11,6 +12,7 @@ def answerLine (line : String) : String :=
       | "iterq" => Iterq.answer kv
       | "layout" => LayoutE.answer kv
       | "own" => OwnE.answer kv
+      | "seq" => SeqE.answer kv
       | _ => "bad-engine"
     s!"{seq} {body}"
   | _ => "bad-line"
